@@ -7,8 +7,11 @@
 
   Model: `LTL.modelcheck` (PMC/Model/LTL.lean): `LNot` + rewriting to {not, or, X, U}, declarative-atom tableau,
   edges = `_does_respect_Xs`, SCCs, `_is_non_trivial_self_fulfilling`, backward reachability, projection, complement.
-  The atom set is the textbook one (state × choice of elementary formulas); that `_build_atoms` enumerates it is
-  validated by the correspondence check, not proved (DESIGN.md §3).
+  The atom set of this model is the textbook one (state × choice of elementary formulas).  That the incremental
+  procedure `_build_atoms` of the code yields the same answers is PROVED in PMC/Properties/C02Atoms.lean
+  (`checkEBuilt_iff_checkE`, `modelcheckBuilt_exact`: PMC/Model/LTLAtoms.lean follows `_get_closure` / `_build_atoms`
+  statement by statement, for every admissible processing order of the closure), and additionally validated by the
+  correspondence check.
 -/
 import PMC.Proofs.LTLExact
 namespace PMC.C02
